@@ -43,6 +43,10 @@ use std::pin::Pin;
 use std::sync::{Arc, Mutex};
 use std::task::{Context, Poll, Waker};
 
+/// Oracle name of the one failure class that is specific to a store which lets writes to
+/// different keys take effect out of issue order (allowed by the `KVStore` contract).
+pub const ORACLE_REORDER: &str = "C19-1a recovery fails after writes to different keys took effect out of issue order";
+
 // ---------------------------------------------------------------------------------------------
 // parked store operations
 
@@ -80,7 +84,7 @@ pub struct AsyncKv {
 	pub store: SimKv,
 	pub parked: Mutex<Vec<Parked>>,
 	/// recovery mode: every operation takes effect at once
-	pub immediate: bool,
+	pub immediate: std::sync::atomic::AtomicBool,
 	pub seq: Mutex<u64>,
 	pub cur_call: Mutex<usize>,
 	/// applied op index -> harness call that issued it
@@ -92,7 +96,7 @@ impl AsyncKv {
 		AsyncKv {
 			store: SimKv::new(lazy_mode, list_salt, true),
 			parked: Mutex::new(Vec::new()),
-			immediate: false,
+			immediate: std::sync::atomic::AtomicBool::new(false),
 			seq: Mutex::new(0),
 			cur_call: Mutex::new(0),
 			op_call: Mutex::new(BTreeMap::new()),
@@ -102,7 +106,7 @@ impl AsyncKv {
 		AsyncKv {
 			store: SimKv::from_state(state, list_salt),
 			parked: Mutex::new(Vec::new()),
-			immediate: true,
+			immediate: std::sync::atomic::AtomicBool::new(true),
 			seq: Mutex::new(0),
 			cur_call: Mutex::new(0),
 			op_call: Mutex::new(BTreeMap::new()),
@@ -184,7 +188,7 @@ impl KVStore for AsyncKv {
 		&self, p: &str, s: &str, k: &str,
 	) -> impl Future<Output = Result<Vec<u8>, io::Error>> + 'static + Send {
 		let slot = Arc::new(Mutex::new(None));
-		if self.immediate {
+		if self.immediate.load(std::sync::atomic::Ordering::Relaxed) {
 			*slot.lock().unwrap() = Some(KVStoreSync::read(&self.store, p, s, k));
 		} else {
 			self.park(OpKind::Read, p, s, k, None, Slot::Bytes(Arc::clone(&slot)));
@@ -195,7 +199,7 @@ impl KVStore for AsyncKv {
 		&self, p: &str, s: &str, k: &str, buf: Vec<u8>,
 	) -> impl Future<Output = Result<(), io::Error>> + 'static + Send {
 		let slot = Arc::new(Mutex::new(None));
-		if self.immediate {
+		if self.immediate.load(std::sync::atomic::Ordering::Relaxed) {
 			*slot.lock().unwrap() = Some(KVStoreSync::write(&self.store, p, s, k, buf));
 		} else {
 			self.park(OpKind::Write, p, s, k, Some(buf), Slot::Unit(Arc::clone(&slot)));
@@ -206,7 +210,7 @@ impl KVStore for AsyncKv {
 		&self, p: &str, s: &str, k: &str, lazy: bool,
 	) -> impl Future<Output = Result<(), io::Error>> + 'static + Send {
 		let slot = Arc::new(Mutex::new(None));
-		if self.immediate {
+		if self.immediate.load(std::sync::atomic::Ordering::Relaxed) {
 			*slot.lock().unwrap() = Some(KVStoreSync::remove(&self.store, p, s, k, lazy));
 		} else {
 			self.park(OpKind::Remove { lazy }, p, s, k, None, Slot::Unit(Arc::clone(&slot)));
@@ -215,7 +219,7 @@ impl KVStore for AsyncKv {
 	}
 	fn list(&self, p: &str, s: &str) -> impl Future<Output = Result<Vec<String>, io::Error>> + 'static + Send {
 		let slot = Arc::new(Mutex::new(None));
-		if self.immediate {
+		if self.immediate.load(std::sync::atomic::Ordering::Relaxed) {
 			*slot.lock().unwrap() = Some(KVStoreSync::list(&self.store, p, s));
 		} else {
 			self.park(OpKind::List, p, s, "", None, Slot::List(Arc::clone(&slot)));
@@ -858,8 +862,16 @@ impl AsyncMirror {
 				return;
 			},
 			Err((m, l)) => {
+				// Classify: a gap in the stored update ids whose missing write is still parked (it was
+				// issued earlier but a later update's write, to a different key, took effect first)
+				// is the cross-key reordering the `KVStore` contract allows. Anything else is not.
+				let oracle = if self.gap_with_parked_write(state) {
+					ORACLE_REORDER
+				} else {
+					"C19-1 recovery fails"
+				};
 				ctx.violate(
-					"C19-1 recovery fails",
+					oracle,
 					format!(
 						"node {} crash before op {} ({}): read_all_channel_monitors_with_updates panicked: {} at {}; store: {}",
 						self.node, opi, what, m, l, Self::render(state)
@@ -872,6 +884,44 @@ impl AsyncMirror {
 			let rec = recovered.remove(&key);
 			self.judge(ctx, opi, what, &key, fp, base, &ups, rec);
 		}
+	}
+
+	/// Some channel has stored updates above its stored monitor with an id missing in between (or
+	/// no stored monitor write yet covering them), while a write for that channel is still parked.
+	fn gap_with_parked_write(&self, state: &BTreeMap<String, (Val, usize)>) -> bool {
+		let parked = self.kv.parked.lock().unwrap();
+		for (key, ch) in self.chans.iter() {
+			let (_, base, ups) = Self::chan_sub(state, key);
+			let base_id = match base
+				.and_then(|b| self.kv.op_call.lock().unwrap().get(&b).copied())
+				.and_then(|c| ch.by_call.get(&c).copied())
+			{
+				Some(h) => ch.handed[h].id,
+				None => continue,
+			};
+			let above: Vec<u64> = ups.iter().map(|(id, _)| *id).filter(|id| *id > base_id).collect();
+			let mut expect = base_id + 1;
+			let mut gap = false;
+			for id in above.iter() {
+				if *id != expect {
+					gap = true;
+					break;
+				}
+				expect += 1;
+			}
+			if !gap {
+				continue;
+			}
+			let mk = CHANNEL_MONITOR_PERSISTENCE_PRIMARY_NAMESPACE;
+			let uk = CHANNEL_MONITOR_UPDATE_PERSISTENCE_PRIMARY_NAMESPACE;
+			let has_parked = parked.iter().any(|o| {
+				o.kind == OpKind::Write && ((o.p == mk && o.k == *key) || (o.p == uk && o.s == *key))
+			});
+			if has_parked {
+				return true;
+			}
+		}
+		false
 	}
 
 	fn render(state: &BTreeMap<String, (Val, usize)>) -> String {
@@ -1058,6 +1108,97 @@ impl AsyncMirror {
 		any
 	}
 
+	/// A clean restart: possible only when nothing is parked or in flight. The store is read back
+	/// with a fresh persister, every monitor is brought to the node's chain tip individually (as a
+	/// restarting node does) and registered with a fresh `ChainMonitor`, which persists it anew.
+	fn act_reload(&mut self, ctx: &mut ACtx, chain: &lnsim::chain::ChainModel, new_max: Option<u64>) -> bool {
+		if self.dead || !self.kv.parked.lock().unwrap().is_empty() || self.spawner.len() > 0 {
+			return false;
+		}
+		if let Some(m) = new_max {
+			self.max_pending = m;
+		}
+		self.cm = None;
+		self.begin_call();
+		self.kv.immediate.store(true, std::sync::atomic::Ordering::Relaxed);
+		let p = new_apersister(
+			&self.kv, &self.spawner, &self.logger, &self.keys, &self.broadcaster, &self.fee, self.max_pending,
+		);
+		let res = catch(|| block_on_ready(p.read_all_channel_monitors_with_updates()));
+		self.kv.immediate.store(false, std::sync::atomic::Ordering::Relaxed);
+		self.kv.store.take_snaps();
+		self.ops_seen = self.kv.store.op_count();
+		let mons: Vec<Mon> = match res {
+			Ok(Some(Ok(v))) => v.into_iter().map(|(_, m)| m).collect(),
+			Ok(Some(Err(e))) => {
+				let injected = self.kv.store.inner.lock().unwrap().ops.iter().rev().take(64).any(|o| o.err);
+				if !injected {
+					ctx.violate("C19-1 recovery fails", format!("node {} restart: {}", self.node, e));
+				}
+				self.dead = true;
+				return true;
+			},
+			Ok(None) => {
+				ctx.out.harness_errors.push("restart read did not complete on an immediate store".into());
+				self.dead = true;
+				return true;
+			},
+			Err((m, l)) => {
+				ctx.violate("C19-1 recovery fails", format!("node {} restart read panicked: {} at {}", self.node, m, l));
+				self.dead = true;
+				return true;
+			},
+		};
+		ctx.out.bump("probe:persister_reloaded");
+		ctx.note(&format!("n{} async reload: {} monitors", self.node, mons.len()));
+		let persister = new_apersister(
+			&self.kv, &self.spawner, &self.logger, &self.keys, &self.broadcaster, &self.fee, self.max_pending,
+		);
+		let cm: AChainMonitor = ChainMonitor::new_async_beta(
+			Some(Arc::new(SimFilter::new())),
+			Arc::clone(&self.broadcaster),
+			Arc::clone(&self.logger),
+			Arc::clone(&self.fee),
+			persister,
+			Arc::clone(&self.keys),
+			self.keys.node_keys.get_peer_storage_key(),
+			false,
+		);
+		self.cm = Some(Arc::new(cm));
+		// chain data arrives while the monitors are brought to the tip
+		self.epoch += 1;
+		let mut sorted = mons;
+		sorted.sort_by_key(|m| format!("{}", m.persistence_key()));
+		for m in sorted {
+			let from = m.current_best_block().height;
+			for h in (from + 1)..=self.height {
+				let b = chain.block_at(h);
+				let txdata: Vec<(usize, &Transaction)> = b.txs.iter().enumerate().map(|(i, t)| (i + 1, t)).collect();
+				let res = catch(|| {
+					if !txdata.is_empty() {
+						m.transactions_confirmed(&b.header, &txdata, h, &self.broadcaster, &self.fee, &self.logger);
+					}
+					m.best_block_updated(&b.header, h, &self.broadcaster, &self.fee, &self.logger);
+				});
+				if let Err((msg, loc)) = res {
+					ctx.violate("C19-0 panic", format!("chain replay on a recovered monitor panicked: {} at {}", msg, loc));
+					self.dead = true;
+					return true;
+				}
+			}
+			self.broadcaster.take();
+			let chan_id = m.channel_id().0;
+			let blob = m.encode();
+			self.register(ctx, chan_id, blob);
+			if self.dead {
+				return true;
+			}
+		}
+		self.epoch += 1;
+		self.settle_tasks(ctx);
+		true
+	}
+
 	fn act_cleanup(&mut self, ctx: &mut ACtx, lazy: bool) -> bool {
 		if self.dead {
 			return false;
@@ -1102,6 +1243,8 @@ pub struct AConfig {
 	pub w_cleanup: u32,
 	pub w_flush: u32,
 	pub w_err: u32,
+	pub w_reload: u32,
+	pub reload_changes_max: bool,
 	pub resolve_all_pct: u8,
 	pub close_after: u64,
 	pub w_close_coop: u32,
@@ -1116,6 +1259,7 @@ pub enum AAction {
 	Cleanup { node: usize, lazy: bool },
 	Flush { node: usize },
 	ArmErr { node: usize, after: u32, applied: bool },
+	Reload { node: usize, max: Option<u64> },
 }
 
 impl AAction {
@@ -1127,6 +1271,7 @@ impl AAction {
 			AAction::Cleanup { .. } => "Cleanup".into(),
 			AAction::Flush { .. } => "Flush".into(),
 			AAction::ArmErr { .. } => "ArmErr".into(),
+			AAction::Reload { .. } => "Reload".into(),
 		}
 	}
 	fn actor(&self) -> usize {
@@ -1136,7 +1281,8 @@ impl AAction {
 			| AAction::ResolveAll { node }
 			| AAction::Cleanup { node, .. }
 			| AAction::Flush { node }
-			| AAction::ArmErr { node, .. } => *node,
+			| AAction::ArmErr { node, .. }
+			| AAction::Reload { node, .. } => *node,
 		}
 	}
 }
@@ -1150,6 +1296,7 @@ struct ARun {
 	hist: u64,
 	inter: u64,
 	trace: Vec<AAction>,
+	effective: u64,
 	step: u64,
 	state_fps: BTreeSet<u64>,
 	sample: Vec<String>,
@@ -1172,6 +1319,8 @@ fn gen_aconfig(rng: &mut Rng, tier: Tier, global_fifo: bool) -> AConfig {
 		w_cleanup: *r.pick(&[0, 1, 3]),
 		w_flush: *r.pick(&[0, 1, 3]),
 		w_err: *r.pick(&[0, 0, 0, 1]),
+		w_reload: *r.pick(&[0, 2, 5]),
+		reload_changes_max: base.reload_changes_max,
 		resolve_all_pct: *r.pick(&[0, 10, 40]),
 		close_after: base.close_after,
 		w_close_coop: base.w_close_coop,
@@ -1193,6 +1342,7 @@ impl ARun {
 			hist: fnv(b"persistsim-async"),
 			inter: fnv(b"inter"),
 			trace: Vec::new(),
+			effective: 0,
 			step: 0,
 			state_fps: BTreeSet::new(),
 			sample: Vec::new(),
@@ -1275,6 +1425,7 @@ impl ARun {
 
 	fn apply(&mut self, a: &AAction) -> bool {
 		self.step += 1;
+		self.trace.push(a.clone());
 		let did = match a {
 			AAction::W(wa) => {
 				if self.wd.dead {
@@ -1296,6 +1447,7 @@ impl ARun {
 						let mut ctx = ACtx { out: &mut self.out, step: self.step, hist: &mut self.hist };
 						let m = &mut self.mirrors[mi];
 						match a {
+							AAction::Reload { max, .. } => m.act_reload(&mut ctx, &self.wd.chain, *max),
 							AAction::Resolve { pick, .. } => m.act_resolve(&mut ctx, *pick),
 							AAction::ResolveAll { .. } => m.act_resolve_all(&mut ctx),
 							AAction::Cleanup { lazy, .. } => m.act_cleanup(&mut ctx, *lazy),
@@ -1327,7 +1479,7 @@ impl ARun {
 			if self.sample.len() < 30 {
 				self.sample.push(format!("{:?}", a));
 			}
-			self.trace.push(a.clone());
+			self.effective += 1;
 			let mut h = fnv(b"astate");
 			for m in self.mirrors.iter() {
 				let parked = m.kv.parked.lock().unwrap().len();
@@ -1391,20 +1543,21 @@ impl ARun {
 fn adrive(run: &mut ARun, rng: &mut Rng) {
 	let mut sched = rng.fork("schedule");
 	let mut idle = 0;
-	while (run.trace.len() as u64) < run.cfg.steps && idle < 60 {
+	while (run.effective) < run.cfg.steps && idle < 60 {
 		// the cross-key ordering finding (C19-1) does not stop the exploration of the other oracles
 		if run.mirrors.iter().all(|m| m.dead)
-			|| run.out.violations.iter().any(|v| v.oracle != "C19-1 recovery fails")
+			|| run.out.violations.iter().any(|v| v.oracle != ORACLE_REORDER)
 		{
 			break;
 		}
-		let late = run.trace.len() as u64 >= run.cfg.close_after;
+		let late = run.effective >= run.cfg.close_after;
 		if late {
 			let (cc, fc) = (run.cfg.w_close_coop, run.cfg.w_force_close);
 			run.wd.cfg.weights.insert("CloseCoop".to_string(), cc);
 			run.wd.cfg.weights.insert("ForceClose".to_string(), fc);
 		}
-		let cfg = &run.cfg;
+		let cfg_reload_changes_max = run.cfg.reload_changes_max;
+		let cfg = run.cfg.clone();
 		let alive: Vec<usize> = run.mirrors.iter().filter(|m| !m.dead).map(|m| m.node).collect();
 		let with_parked: Vec<usize> = run
 			.mirrors
@@ -1419,6 +1572,7 @@ fn adrive(run: &mut ARun, rng: &mut Rng) {
 			cfg.w_cleanup,
 			cfg.w_flush,
 			cfg.w_err,
+			cfg.w_reload,
 		];
 		if ws.iter().all(|w| *w == 0) {
 			break;
@@ -1447,6 +1601,17 @@ fn adrive(run: &mut ARun, rng: &mut Rng) {
 			},
 			3 => Some(AAction::Cleanup { node: *sched.pick(&alive), lazy: sched.coin() }),
 			4 => Some(AAction::Flush { node: *sched.pick(&alive) }),
+			6 => {
+				let node = *sched.pick(&alive);
+				// a clean restart needs a quiet store: let everything parked take effect first
+				run.apply(&AAction::ResolveAll { node });
+				let max = if cfg_reload_changes_max && sched.chance(1, 2) {
+					Some(*sched.pick(&crate::MAX_PENDING_CHOICES))
+				} else {
+					None
+				};
+				Some(AAction::Reload { node, max })
+			},
 			_ => Some(AAction::ArmErr { node: *sched.pick(&alive), after: sched.below(12) as u32, applied: sched.coin() }),
 		};
 		let a = match a {
